@@ -31,6 +31,10 @@ type XType struct {
 	Range          numref.Set // nil: not a numeric kind
 	Length         numref.Set // nil: unrestricted / not applicable
 	IdentityBase   string     // "module:identity"
+	// Observed only (never compared with the reference; for dumps that are compared run against run): the
+	// module text that holds the base, by full name, and the values the identityref admits.
+	IdentityBaseIn string   `json:",omitempty"`
+	IdentityValues []string `json:",omitempty"`
 }
 
 // XNode is an expected (or observed) instantiated schema node.
